@@ -14,6 +14,10 @@ designs:        generated tops exposing 1-4 callee ports (@method_port, @non_blo
                 `static_check2`): value wires between the update blocks, free (not rank-consistent) constraints — non-trivial SCCs,
                 method -> block -> rdy rings that only the pass's assert reports — and, for a third of them, a top that exposes the
                 ports of the generated design through its own CalleePort / CalleeIfcCL objects (method nets).
+                Third family (`GLDesign`, WrapGreenletPass applied as in AutoTickSimPass): an update_once block that calls a blocking FL
+                method of a child (so it becomes a greenlet ticker) with declared U(blk) < M(top method) / M(top method) < U(blk)
+                constraints, the top methods plain or rdy-guarded; oracles: declared pairs in the installed schedule, in the execution
+                log, and pull() == lut( value pushed in the same cycle ); model tie with the block ids taken after WrapGreenletPass.
 direct oracle:  the installed schedule is read from the wrapper closures (my_idx_orig, my_idx_new, schedule_no_method): every update
                 block exactly once; for every DECLARED constraint X < Y (ports and blocks taken from add_constraints' own arguments,
                 Y replaced by its rdy when it is the method of a non-blocking interface, X / Y widened by a declared ==), both ends
@@ -67,7 +71,7 @@ ASSUMPTIONS = [
   'top_level_callee_constraints is an input here (its == widening is covered by the declared-constraint oracle of this module)',
 ]
 RULE = ('open-loop model tie: the generated tops of c02_openloop (1-4 callee ports, 1-4 blocks, U<M / M<U / M<M / M==M) and a second family with value '
-        'wires between the blocks, free (not rank-consistent) constraints incl. method -> block -> rdy rings that must hit the assert, a third of them behind a top that re-exports the ports through method nets, and the three stdlib '
+        'wires between the blocks, free (not rank-consistent) constraints incl. method -> block -> rdy rings that must hit the assert, a third of them behind a top that re-exports the ports through method nets, the greenlet family (a block calling a blocking FL method, wrapped by WrapGreenletPass, constrained against top-level methods on either side, 6 shuffles each), and the three stdlib '
         'queues as top; per design several shuffles; per schedule a random call sequence of 6-14 calls (rdy / method / plain ports in any order, '
         'sim_reset first in 3 of 4 runs, a second sim_reset in the middle in 1 of 5); non-trivial = at least one callee constraint edge in E')
 
@@ -255,11 +259,14 @@ def static_check(ck, top, case, tag):
                   'oracle': 'every declared X < Y between schedule vertices is honoured (Y = its rdy for the method of a non-blocking interface); rdy before method'})
   return ports, blocks, req, full
 
-def apply_openloop(top, seed):
+def apply_openloop(top, seed, wrapgl=False):
   from pymtl3.passes.autotick.OpenLoopCLPass import OpenLoopCLPass
   from pymtl3.passes.sim.GenDAGPass import GenDAGPass
   top.elaborate()
   top.apply(GenDAGPass())
+  if wrapgl:                                  # as AutoTickSimPass does: blocks that call blocking methods become greenlet tickers
+    from pymtl3.passes.sim.WrapGreenletPass import WrapGreenletPass
+    top.apply(WrapGreenletPass())
   random.seed(seed)
   return OpenLoopCLPass(print_line_trace=False)
 
@@ -391,6 +398,8 @@ class ModelTie:
     for q in top.get_all_object_filter(lambda x: isinstance(x, CalleePort)):
       for tp in self.portverts:
         if q is tp or (q.method is not None and q.method == tp.method): self.alias[q] = tp
+    # ... and every original block stands for its greenlet ticker (the vertex after WrapGreenletPass)
+    for b, w in (getattr(top._dag, 'blk_greenlet_mapping', None) or {}).items(): self.alias[b] = w
 
   def oid(self, x, name):
     if x not in self.ids:
@@ -604,7 +613,7 @@ def model_compare(ck, lines, meta):
     if ok and exact: model_tie_dynamic(ck, tie, tree, run[0], run[1], run[2], rerr, case)
 
 
-def static_check2(ck, d, tie, case):
+def static_check2(ck, d, tie, case, tag='gen2'):
   """direct oracle for the second family, on the schedule the pass installed (SCC wrappers allowed): every block exactly once (as an
   entry or inside exactly one wrapper); every declared pair and every writer -> reader pair of the value wires in order, unless both
   ends sit in one wrapper"""
@@ -617,7 +626,7 @@ def static_check2(ck, d, tie, case):
       where[m] = k
   missing = [b.__name__ for b in tie.blocks if b not in where]
   if dup or missing:
-    ck.violation('openloop-schedule', {'tag': 'gen2', 'what': 'blocks-not-exactly-once'}, case,
+    ck.violation('openloop-schedule', {'tag': tag, 'what': 'blocks-not-exactly-once'}, case,
                  {'duplicates': dup, 'missing': missing, 'oracle': 'every update block exactly once in the open-loop schedule'})
     return
   al = lambda x: tie.alias.get(x, x)
@@ -626,9 +635,130 @@ def static_check2(ck, d, tie, case):
   req += [(byname[a], byname[b], f'{b} reads o_{a}') for b, rs in d.reads.items() for a in rs]
   bad = [(vname(a), vname(b), why) for a, b, why in req if a in where and b in where and where[a] != where[b] and not where[a] < where[b]]
   if bad:
-    ck.violation('openloop-order', {'tag': 'gen2', 'where': 'schedule'}, case,
+    ck.violation('openloop-order', {'tag': tag, 'where': 'schedule'}, case,
                  {'violated': bad[:6], 'schedule': [vname(v) if v in tie.ids else getattr(v, '__name__', '?') for v in tie.full],
                   'oracle': 'every declared X < Y and every writer -> reader pair between different schedule entries is honoured'})
+
+# ----------------------------------------------------------------------------------------------------------------------
+# third family: a greenlet-wrapped block (it calls a blocking FL method of a child) constrained against top-level methods
+# ----------------------------------------------------------------------------------------------------------------------
+
+GL_HEAD = '''from pymtl3 import *
+from pymtl3.dsl import CalleeIfcFL, CallerIfcFL
+TRACE = []
+class OGL{u}( Component ):
+  def construct( s ):
+    s.look = CalleeIfcFL( method=s.look_ )
+  def look_( s, v ):
+    return v + 1
+'''
+
+class GLDesign:
+  '''top: push(v) stores v; `drive` copies it to wire a; the update_once block up_g computes w = lut.look( a or v ) through a blocking
+  CallerIfcFL (so WrapGreenletPass wraps it); pull() returns w.  Declared: M(push) < U(drive) or M(push) < U(up_g) (block on the right),
+  U(up_g) < M(pull) or M(pull) < U(up_g) (block on the left / right); push / pull are plain method ports or non-blocking interfaces
+  (then a right-hand method stands for its rdy); an optional extra block with one more constraint'''
+  def __init__(self, rng, uid):
+    self.uid = uid
+    self.src_v = rng.random() < 0.4                    # up_g reads s.v itself: M(push) < U(up_g)
+    self.after = rng.random() < 0.7                    # U(up_g) < M(pull): pull returns this cycle's value
+    self.kind = {m: rng.choice(['mp', 'nb']) for m in ('push', 'pull')}
+    self.extra = rng.choice([None, 'U( b0 ) < M( s.pull )', 'M( s.push ) < U( b0 )', 'U( b0 ) < U( up_g )'])
+    self.reads = {} if self.src_v else {'up_g': ['drive']}
+    self.order = ['drive', 'up_g'] + (['b0'] if self.extra else []); rng.shuffle(self.order)
+
+  def source(self):
+    u = self.uid
+    body = {'drive': ['    @update', '    def drive():', "      TRACE.append( 'drive' )", '      s.a @= s.v'],
+            'up_g': ['    @update_once', '    def up_g():', "      TRACE.append( 'up_g' )",
+                     '      s.w @= s.look( ' + ('Bits8( s.v )' if self.src_v else 's.a') + ' )'],
+            'b0': ['    @update', '    def b0():', "      TRACE.append( 'b0' )"]}
+    L = [GL_HEAD.format(u=u), f'class OG{u}( Component ):', '  def construct( s ):', '    s.v = 0',
+         '    s.a = Wire( Bits8 ); s.w = Wire( Bits8 )', f'    s.lut = OGL{u}(); s.look = CallerIfcFL(); s.look //= s.lut.look']
+    for b in self.order: L += body[b]
+    cons = ['M( s.push ) < U( up_g )' if self.src_v else 'M( s.push ) < U( drive )',
+            'U( up_g ) < M( s.pull )' if self.after else 'M( s.pull ) < U( up_g )'] + ([self.extra] if self.extra else [])
+    L += ['    s.add_constraints( ' + ', '.join(cons) + ' )', '    @update_ff', '    def up_ff():', "      TRACE.append( 'ff' )"]
+    for m, sig, stmt in (('push', 's, v', 's.v = v'), ('pull', 's', 'return int( s.w )')):
+      L.append('  @method_port' if self.kind[m] == 'mp' else f"  @non_blocking( lambda s: ( TRACE.append( '{m}.rdy' ), True )[1] )")
+      L += [f'  def {m}( {sig} ):', f"    TRACE.append( '{m}' )", f'    {stmt}']
+    return '\n'.join(L) + '\n'
+
+def gl_behaviour(ck, d, top, mod, case, names, rng):
+  '''push(v) then pull(), several rounds; oracle on the design's own execution log and on the values'''
+  top.sim_reset()
+  del mod.TRACE[:]
+  order = {(a, b) for a, b, _ in names}
+  while True:
+    more = {(a, d2) for a, b in order for c, d2 in order if b == c} - order
+    if not more: break
+    order |= more
+  vals, got, cyc = [], [], []
+  for _ in range(rng.randint(3, 5)):
+    v = rng.randint(1, 100); vals.append(v)
+    if d.kind['push'] == 'nb': top.push.rdy()
+    top.push(v)
+    if d.kind['pull'] == 'nb': top.pull.rdy()
+    got.append(top.pull()); cyc.append(top.sim_cycle_count())
+  tr = list(mod.TRACE)
+  cycles, cur = [], []
+  for e in tr:
+    if e == 'ff': cycles.append(cur); cur = []
+    else: cur.append(e)
+  blocks = set(d.order)
+  problems = []
+  for ci, c in enumerate(cycles + [cur]):
+    for b in blocks:
+      n = c.count(b)
+      if n > 1 or (ci < len(cycles) and n != 1): problems.append(f'cycle {ci}: block {b} ran {n} times')
+    first = {}
+    for k, e in enumerate(c): first.setdefault(e, k)
+    last = {e: k for k, e in enumerate(c)}
+    for a, b in order:
+      if a in last and b in first and not last[a] < first[b]: problems.append(f'cycle {ci}: {b} executed before {a} although {a} < {b}')
+      if b in first and a in blocks and a not in first: problems.append(f'cycle {ci}: {b} executed, block {a} (< {b}) not yet')
+  if d.after:
+    # push < (drive <) up_g < pull: what is pushed is looked up and pulled in the same cycle, one cycle per round
+    if got != [v + 1 for v in vals]: problems.append(f'pull() returned {got} after push of {vals}: expected {[v + 1 for v in vals]}')
+    if cyc != list(range(cyc[0], cyc[0] + len(cyc))): problems.append(f'sim_cycle_count after the rounds: {cyc}, expected one cycle per round')
+  if problems:
+    ck.violation('openloop-order', {'tag': 'greenlet', 'where': 'behaviour'}, case,
+                 {'problems': problems[:6], 'pushed': vals, 'pulled': got, 'log': tr[:80],
+                  'oracle': 'greenlet-wrapped block against top-level methods: blocks once per cycle, declared order honoured in the execution '
+                            'log, pull() returns lut( value pushed in this cycle ) when U(up_g) < M(pull)'})
+
+def gl_case(ck, d, cls, mod, case, rng2, tlines, tmeta, nops):
+  '''one (design, shuffle): instance 1 = model tie + schedule oracle; instance 2 = behaviour / value oracle'''
+  top = cls()
+  tie = model_tie(ck, top, apply_openloop(top, case['seed'], wrapgl=True), case, rng2, tlines, tmeta, nops)
+  if not hasattr(tie, 'full'):
+    ck.violation('openloop-rejected', {'tag': 'greenlet'}, case, {'oracle': 'the declared constraints are consistent: the design is schedulable'}); return
+  static_check2(ck, d, tie, case, tag='greenlet')
+  # structural tie: after WrapGreenletPass no constraint against a top-level method may still name an original (now wrapped) block —
+  # such an end is no vertex, model and pass both drop the pair
+  stale = [(getattr(x, '__name__', '?'), getattr(y, '__name__', '?')) for x, y in tie.top._dag.top_level_callee_constraints
+           if x in tie.top._dag.blk_greenlet_mapping or y in tie.top._dag.blk_greenlet_mapping]
+  if stale: ck.disagreement('top_level_callee_constraints re-keyed by WrapGreenletPass (every block end is a vertex of the open-loop graph)', case,
+                            'no end is a wrapped original block', stale)
+  al = lambda x: tie.alias.get(x, x)
+  names = [(vname(al(a)), vname(al(b)), w) for a, b, w in declared_pairs(tie.top, set(tie.alias) | set(tie.blocks))]
+  names += [(a, b, 'value') for b, rs in d.reads.items() for a in rs]
+  top2 = cls(); top2.apply(apply_openloop(top2, case['seed'], wrapgl=True))
+  gl_behaviour(ck, d, top2, mod, case, names, rng2)
+
+def third_family(ck, rng2, tlines, tmeta, ndes, reps, nops):
+  for _ in range(ndes):
+    d = GLDesign(rng2, next(c02_methods._uid))
+    src = d.source()
+    cls = c02_methods.load(ck, src, f'OG{d.uid}')
+    mod = sys.modules[cls.__module__]
+    for rep in range(reps):
+      seed = rng2.randrange(1 << 30)
+      case = {'openloop': True, 'source': src, 'top': f'OG{d.uid}', 'seed': seed, 'family': 3, 'wrapgl': True,
+              'gl': {'src_v': d.src_v, 'after': d.after, 'kind': d.kind, 'extra': d.extra, 'order': d.order}}
+      ck.count({'src': hash(src) & 0xffffffff, 'seed': seed, 'family': 3}, True)
+      ck.hist('openloop_design', 'greenlet'); ck.hist('openloop_greenlet_shape', f"{'v' if d.src_v else 'a'}/{'after' if d.after else 'before'}/{d.kind['push']}/{d.kind['pull']}")
+      gl_case(ck, d, cls, mod, case, rng2, tlines, tmeta, nops)
 
 def second_family(ck, rng2, tlines, tmeta, ndes, reps, nops):
   """tops with value wires between the update blocks and free (not rank-consistent) constraints: non-trivial SCCs, rings that
@@ -707,7 +837,9 @@ def _run(ck, rng):
   # ck.count draws from ck.rng: put its state back so that the streams that run after this one generate what they generated before
   # the second family existed
   state = ck.rng.getstate()
-  try: second_family(ck, rng2, tlines, tmeta, ndes, tie_reps, nops)
+  try:
+    second_family(ck, rng2, tlines, tmeta, ndes, tie_reps, nops)
+    third_family(ck, rng2, tlines, tmeta, *((12, 6) if ck.tier == 'quick' else (80, 10)), nops)
   finally: ck.rng.setstate(state)
   model_compare(ck, tlines, tmeta)
   ck.extra_cov['openloop_designs'] = ndes + 6
@@ -724,7 +856,7 @@ def replay_model(ck, case):
     top = c02_methods.load(ck, case['source'], case['top'])()
   state = random.getstate()
   try:
-    tie = model_tie(ck, top, apply_openloop(top, case['seed']), case, rng2, lines, meta, 10, protocol=bool(case.get('stdlib')))
+    tie = model_tie(ck, top, apply_openloop(top, case['seed'], wrapgl=bool(case.get('wrapgl'))), case, rng2, lines, meta, 10, protocol=bool(case.get('stdlib')))
   finally: random.setstate(state)
   rep = ck.drv('openloop').batch(lines)[0]
   print('request:', lines[0][:1500]); print('model  :', rep[:1500])
@@ -737,8 +869,22 @@ def replay_model(ck, case):
   for b in ck.breaks[n0:]: print('DISAGREEMENT', b['correspondence'], 'model:', str(b['model'])[:600], 'impl:', str(b['impl'])[:600])
   return 1 if len(ck.breaks) > n0 else 0
 
+def replay_greenlet(ck, case):
+  d = GLDesign(random.Random(0), 0)
+  for k, v in case['gl'].items(): setattr(d, k, v)
+  d.reads = {} if d.src_v else {'up_g': ['drive']}
+  cls = c02_methods.load(ck, case['source'], case['top'])
+  n0, lines, meta = len(ck.violations), [], []
+  state = random.getstate()
+  try: gl_case(ck, d, cls, sys.modules[cls.__module__], case, random.Random(case['seed']), lines, meta, 10)
+  finally: random.setstate(state)
+  if meta and meta[0][3]: print('schedule:', meta[0][0].real_slots(), {str(k): v for k, v in sorted(meta[0][0].names.items())})
+  for v in ck.violations[n0:]: print('VIOLATION', v.kind, v.signature, str(v.detail)[:1500])
+  return 1 if len(ck.violations) > n0 else 0
+
 def replay(ck, case):
   if case.get('model'): return replay_model(ck, case)
+  if case.get('wrapgl'): return replay_greenlet(ck, case)
   n0 = len(ck.violations)
   if case.get('stdlib'):
     from pymtl3.stdlib.queues import cl_queues
